@@ -30,7 +30,7 @@ extern "C" __attribute__((used)) const char *__asan_default_options() {
          "allocator_may_return_null=1:detect_stack_use_after_return=0:abort_on_error=0:print_summary=1";
 }
 extern "C" __attribute__((used)) const char *__tsan_default_options() {
-  return "exitcode=66:halt_on_error=0:report_signal_unsafe=0:second_deadlock_stack=0";
+  return "exitcode=66:halt_on_error=1:report_signal_unsafe=0:second_deadlock_stack=0:report_thread_leaks=0";
 }
 
 namespace sim {
@@ -590,6 +590,11 @@ int cmd_run(const Args &a) {
   bool stable = corpus_init(&why);
   if (!stable) {
     fprintf(real_out(), "U %s\n", Json::Str(why).dump().c_str());
+    if (corpus_collapsed()) {
+      fprintf(real_out(), "DIED corpus collapsed: %s\n", why.c_str());
+      fflush(real_out());
+      return 2;
+    }
   }
   double t0 = now_s();
   RunStats total;
@@ -832,8 +837,14 @@ int main(int argc, char **argv) {
   sim_init(false);
 #else
   sim_init(true);
-  __sanitizer_set_death_callback(death_cb);
 #endif
+  __sanitizer_set_death_callback(death_cb);
+  if (cmd == "racecanary") {
+    // must die with a ThreadSanitizer report (exit 66) in the TSan build
+    int v = lib::race_canary();
+    fprintf(real_out(), "RACECANARY not detected (counter=%d)\n", v);
+    return 0;
+  }
   if (cmd == "run") return cmd_run(a);
   if (cmd == "gen") return cmd_gen(a);
   if (cmd == "replay") return cmd_replay(a);
